@@ -98,23 +98,23 @@ BUILT = {
 
 # stages added after the table above was written (seeding rounds 3-6); appended to the level note
 ADDED = {
-    "C01": "Also: 2^-60-unit, ulp-neighbour and mixed scalar/bar alphabets, reset() as a deviation in the large-period families, periods 65537/100000 (the latter with a full window), Default instances, every history replayed with the instance serialized+restored / cloned / copied with clone_from (same parameters, larger periods) / a chain of those right before the last operation and before a preceding reset(), and prices of 1e308..1.2e308 judged after exact scaling by 2^-600 - there SMA, WMA, SD and BB overflow an intermediate (KNOWN-FINDING lines K1-K4, exit 0) while MAD/MIN/MAX are exact. Round 12b: deep three-level sequences (depth 10/12) for periods 3..8; MIN/MAX at periods 9 and 17 (thorough up to 33) under every set of <= 3 tie-producing deviations on four base streams (props/devfam.rs), scalar and bar path, exact window scan; stateright cross-check capped. Round 13: alphabet S_near (values 1e-10 relative apart), multipliers 2.618 / 0.1.",
+    "C01": "Also: 2^-60-unit, ulp-neighbour and mixed scalar/bar alphabets, reset() as a deviation in the large-period families, periods 65537/100000 (the latter with a full window), Default instances, every history replayed with the instance serialized+restored / cloned / copied with clone_from (same parameters, larger periods) / a chain of those right before the last operation and before a preceding reset(), and prices of 1e308..1.2e308 judged after exact scaling by 2^-600 - there SMA, WMA, SD and BB overflow an intermediate (KNOWN-FINDING lines K1-K4, exit 0) while MAD/MIN/MAX are exact. Round 12b: deep three-level sequences (depth 10/12) for periods 3..8; MIN/MAX at periods 9 and 17 (thorough up to 33) under every set of <= 3 tie-producing deviations on four base streams (props/devfam.rs), scalar and bar path, exact window scan; stateright cross-check capped. Round 13: alphabet S_near (values 1e-10 relative apart), multipliers 2.618 / 0.1. Round 15: 2^32+2048 calls on one instance (SD, SMA; thorough 6 configurations), every step around the wrap against the reference.",
     "C02": "Also: 2^-60-unit alphabets, mixed scalar/bar streams, periods up to usize::MAX, unvalidated (inverted) bars, very long runs against an incremental double-double recursion, the identity transformations (serde, clone, clone_from, chain) before the last operation, and prices near f64::MAX (KeltnerChannel's typical price overflows on bars: KNOWN-FINDING K5, exit 0). Round 13: one EMA instance fed 2^32+16 inputs with every step checked against the recursion on its own previous output; multipliers 2.618 / 0.1.",
     "C03": "Also: S_huge (1e307), spike, tiny-unit and mixed alphabets, MFI alphabets with equal typical prices and with reset, huge EMA periods, very long runs (incl. CCI/MFI against the recomputed window), the identity transformations before the last operation. Round 12b: multi-deviation families (k <= 2, thorough k <= 3) at period 9 (thorough 17) for FastStoch/SlowStoch/CCI/MFI/ER/ROC.",
-    "C04": "Also: long-prefix family to period 256, lifecycle state graph with reset checked in every reachable state (stateright cross-check), periods 2^32+2 and usize::MAX.",
+    "C04": "Also: long-prefix family to period 256, lifecycle state graph with reset checked in every reachable state (stateright cross-check), periods 2^32+2 and usize::MAX. Round 15: a negative-price continuation symbol.",
     "C05": "Also: long continuations with reset histories, clone_from, ambient-state stage (flush-to-zero disturbance, subnormal stream, rebuilt instances), inexact and zero-containing alphabets, Default vs new(reported parameters), lifecycle clone graph, period sweep against digests computed in fresh processes (process-global tables), period 8192 twins and (sampling) under load. Round 14: the fresh-process period sweep also covers large periods up to 100003; the ambient-state scenarios also with a non-finite first input (after new and after reset).",
-    "C06": "Also: continuations containing reset(), long-history family to period 257, period 70000 with checkpoints around 65536 and the full window, lifecycle serde graph, DataItems with fractional/huge volumes. Round 13: for every period up to 1100 / 2000 a round trip after a full window plus one input, 24 more inputs on both copies.",
+    "C06": "Also: continuations containing reset(), long-history family to period 257, period 70000 with checkpoints around 65536 and the full window, lifecycle serde graph, DataItems with fractional/huge volumes. Round 13: for every period up to 1100 / 2000 a round trip after a full window plus one input, 24 more inputs on both copies. Round 15: DataItems over computed off-grid values through JSON (exact float parsing).",
     "C07": "Also: S_wide, S_huge, ulp-neighbour and subnormal alphabets, huge EMA periods, MFI alphabet with reset, 8 regimes incl. outlier and stair, runs of several thousand steps, the identity transformations before the last operation. Round 12b: multi-deviation families (<= 3 tie-producing deviations at every set of positions, four base streams) at periods 9 and 17 (thorough up to 33), scalar and bar path. Round 13: ER and RSI fed bars (grid alphabet, tick walks, deviation families).",
-    "C08": "Also: reset() as a prefix symbol, prefixes fed through the other input path, stretches alternating scalar / one-price bar, prefixes followed by a serde round trip / clone / clone_from, negative levels, levels 1e200/1e-200/1e300 from the start, price sweep 0.01..20.00. Round 13: flat stretches after 2^22+4096 inputs on one instance.",
+    "C08": "Also: reset() as a prefix symbol, prefixes fed through the other input path, stretches alternating scalar / one-price bar, prefixes followed by a serde round trip / clone / clone_from, negative levels, levels 1e200/1e-200/1e300 from the start, price sweep 0.01..20.00. Round 13: flat stretches after 2^22+4096 inputs on one instance. Round 15: flat levels 1e-307, 3e-308, 1.5e-323.",
     "C09": "Also: tiny-unit, negative-price and mixed scalar/bar alphabets, huge periods, the identity transformations before the last operation, and finite values at both ends of the f64 range (SMA/WMA/SD/BB/ATR/KC overflow there: KNOWN-FINDING lines K6-K11, exit 0; MAD, EMA, TR, MIN/MAX hold). Round 12b: deep three-level sequences (depth 10-11 / 12-13) for periods 3..8. Round 13: constant off-grid streams and a tick-grid walk of 2^22+4096 inputs on one instance, every step judged.",
     "C10": "Also: quiet streams, a 30000/200000-bar stream of two-decimal prices with flat stretches, near-extreme DataItems, one-price alphabets with ulp neighbours and negative/zero Keltner multipliers, both input paths mixed on one instance, minimal-trait types compiled and run. Round 13: DataItems obtained by deserialization (any five numbers, opens outside the range) against a plain struct.",
     "C11": "Also: multipliers 2.71828, 1e-5, 1e305, -0.0, inf; windowed constructors up to 2^25; accessors re-checked on clones, restored copies and clone_from targets after every operation; Default (also reset/cloned/formatted first) vs new on negative inputs. Round 14: SlowStochastic x every power of two +-1 in the EMA position, MACD/PPO over 13^3 triples of wrapping magnitudes.",
-    "C12": "Also: periods 65536/100000, clone_from, calls on restored (deserialized) copies, Default::default() instances (incl. the empty history), flat runs around a reset for all run lengths up to 2n+2. Round 12b: multi-deviation families (<= 3 deviations) at periods 9 and 17 (thorough 9..33) for every indicator with a period. Round 13: every period 1..=1100 and powers of two +-1 up to 2^16.",
+    "C12": "Also: periods 65536/100000, clone_from, calls on restored (deserialized) copies, Default::default() instances (incl. the empty history), flat runs around a reset for all run lengths up to 2n+2. Round 12b: multi-deviation families (<= 3 deviations) at periods 9 and 17 (thorough 9..33) for every indicator with a period. Round 13: every period 1..=1100 and powers of two +-1 up to 2^16. Round 15: 2^32+2048 calls on one instance (3 / 17 configurations) must not panic (overflow checks on).",
     "C13": "Also: regimes stair (equal typical price, different bar composition), short saw-tooth, tri4, zero-mix; bases down to 3e-7; single-regime runs for periods 2 and 3; bar-path runs of the close-/low-/high-reading indicators; MFI zero volumes. Round 13: 2.1 M / 4.2 M-step runs for every subject at periods 3 and 14.",
     "C14": "Also: streams with reset, a 1e6 spike symbol, prices around 1e300 scaled by 2^21 for indicators without running sums, period 6001, Maximum(x) = -Minimum(-x) on streams with reset (Maximum transformed before each reset). Round 13: bars with tied typical prices and different shapes under exactly representable factors.",
     "C15": "Also: bar inputs for BB/MACD/PPO, streams with reset (composite also transformed before each reset), mixed scalar/bar streams, unvalidated bars, 2^-60-unit alphabets, periods up to 257 and the documented defaults with the composite serialized+restored / cloned / clone_from'd mid-stream, Default composites against parts wired from the reported parameters. Round 13: composite vs parts at every step of a 2^22+4096-input walk; multiplier 2.618.",
-    "C17": "Also: reset() as a prefix symbol, spikes 1e9 and 3.7e10, zero-volume and inexact MFI bars, large-period family, a high-price-level alphabet (1e7 with spread 0.01), the identity transformations before the last input and before a prefix-ending reset; SD / Bollinger half-widths are judged at tau(t)*M on the value, the variance reading being kept only for the residue of an evicted outlier (DESIGN.md section 8). Round 13: long-running instance (2^22+4096 inputs) vs fresh instance around every power of two.",
-    "C18": "Also: reset in the short alphabet; variants: periodic / single reset, one NaN, HugePair (1e154), zero-mix, mixed input paths, clone_from into a larger instance, replacement by a clone / restored copy eight times per segment, Default instances of all 22 indicators against the bound of the parameters they report. Round 13: NaN-burst variant.",
+    "C17": "Also: reset() as a prefix symbol, spikes 1e9 and 3.7e10, zero-volume and inexact MFI bars, large-period family, a high-price-level alphabet (1e7 with spread 0.01), the identity transformations before the last input and before a prefix-ending reset; SD / Bollinger half-widths are judged at tau(t)*M on the value, the variance reading being kept only for the residue of an evicted outlier (DESIGN.md section 8). Round 13: long-running instance (2^22+4096 inputs) vs fresh instance around every power of two. Round 15: 2^32+2048 calls on one instance (MAX, MIN; thorough 8 configurations) vs a fresh instance fed the last window at every step around the wrap.",
+    "C18": "Also: reset in the short alphabet; variants: periodic / single reset, one NaN, HugePair (1e154), zero-mix, mixed input paths, clone_from into a larger instance, replacement by a clone / restored copy eight times per segment, Default instances of all 22 indicators against the bound of the parameters they report. Round 13: NaN-burst variant. Round 15: runs of 3000 -inf / +inf inputs.",
 }
 
 NOT_YET = "check not built yet in this revision of /verif (work in progress; see DESIGN.md section 4)"
